@@ -13,8 +13,9 @@ VERIF = "/verif"
 OUT = os.environ.get("VERIF_OUT", VERIF)
 KNOWN_FILE = VERIF + "/KNOWN_FINDINGS.txt"
 SCHEMA = "/root/.vp/EVIDENCE.schema.json"
-CRATE = "/repo/ddo"
-TARGET = VERIF + "/target/examples"
+# sensitivity runs on a modified scratch copy of the repository point these two elsewhere
+CRATE = os.environ.get("VERIF_REPO", "/repo") + "/ddo"
+TARGET = os.environ.get("VERIF_EXAMPLES_TARGET", VERIF + "/target/examples")
 BIN = TARGET + "/debug/examples"
 TMP = "%s/target/c16_tmp/%d" % (VERIF, os.getpid())
 os.environ.setdefault("HYPOTHESIS_STORAGE_DIRECTORY", TMP + "/hypothesis")
